@@ -14,7 +14,7 @@ import (
 	"github.com/AdguardTeam/urlfilter/rules"
 )
 
-func init() { gens["c15.cosm"] = genC15 }
+func init() { gens["c15.cosm"] = c15Gen }
 
 var (
 	c15Selectors = []string{".banner", "#ad", ".ad-box", "div[id^=\"ad\"]", ".x", "a[href*=\"track\"]", ".sponsor", "#top > .ad"}
@@ -25,7 +25,7 @@ var (
 	c15Wild = []string{"example.*", "google.*", "www.google.*", "site.*", "sub.example.*"}
 )
 
-func genC15Rule(r *rng) string {
+func c15GenRule(r *rng) string {
 	sel := pick(r, c15Selectors)
 	dom := func() string {
 		n := 1 + r.n(3)
@@ -77,16 +77,16 @@ func c15Host(r *rng) string {
 	}
 }
 
-func selSet(ss ...[]string) string {
+func c15SelSet(ss ...[]string) string {
 	var all []string
 	for _, s := range ss {
 		all = append(all, s...)
 	}
 
-	return sortedTextSet(all)
+	return bSortedTextSet(all)
 }
 
-func genC15(r *rng, n int, w *bufio.Writer) {
+func c15Gen(r *rng, n int, w *bufio.Writer) {
 	for i := 0; i < n; {
 		nLists := 1 + r.n(2)
 		nLines := 1 + r.n(12)
@@ -96,7 +96,7 @@ func genC15(r *rng, n int, w *bufio.Writer) {
 		bodies := make([][]string, nLists)
 		var all []string
 		for j := 0; j < nLines; j++ {
-			t := genC15Rule(r)
+			t := c15GenRule(r)
 			if len(all) > 0 && r.chance(1, 8) {
 				t = pick(r, all)
 			}
@@ -136,8 +136,8 @@ func genC15(r *rng, n int, w *bufio.Writer) {
 						return "unexpected-css-or-js-result"
 					}
 
-					a := selSet(res.ElementHiding.Generic, res.ElementHiding.GenericExtCSS) + "|" +
-						selSet(res.ElementHiding.Specific, res.ElementHiding.SpecificExtCSS)
+					a := c15SelSet(res.ElementHiding.Generic, res.ElementHiding.GenericExtCSS) + "|" +
+						c15SelSet(res.ElementHiding.Specific, res.ElementHiding.SpecificExtCSS)
 					if a == "()|()" {
 						a = "()" // the all-empty answer (counted as trivial by vcheck)
 					}
